@@ -235,8 +235,14 @@ def run_python(pkg, n, rnd, out):
         if t["kind"] == "gen":
             t["ranges"] = [] if rnd.random() < 0.4 else [(rnd.choice([0, 10, 60]), rnd.choice([20, 100, 300]))] * rnd.choice([1, 2])
             t["data"] = None if rnd.random() < 0.5 else bytes(rnd.randrange(256) for _ in range(rnd.randrange(0, 200))).hex()
+            if k % 8 == 5:
+                # long programs on long inputs: the whole input must reach the library, not a prefix of it
+                t["ranges"] = [(rnd.choice([700, 1000, 1500]), rnd.choice([1600, 2000]))]
+                t["data"] = bytes(rnd.randrange(256) for _ in range(rnd.choice([5000, 12000, 30000]))).hex()
+            elif k % 8 == 6:
+                t["ranges"] = [(rnd.choice([300, 100]), rnd.choice([60, 100, 0]))]      # inverted / empty / zero ranges
         else:
-            t["data"] = bytes(rnd.randrange(256) for _ in range(rnd.randrange(0, 300))).hex()
+            t["data"] = bytes(rnd.randrange(256) for _ in range(rnd.randrange(0, 300) if k % 8 != 7 else rnd.choice([3000, 9000]))).hex()
             t["max_size"] = rnd.choice([10, 100, 100000])
         tests.append(t)
     rc, so, se = sh([sys.executable, "-c", PYTEST, pkg], inp="\n".join(json.dumps(t) for t in tests).encode())
